@@ -17,6 +17,7 @@ import (
 	"github.com/prometheus/client_golang/prometheus"
 
 	"github.com/cloudflare/pint/internal/checks"
+	"github.com/cloudflare/pint/internal/config"
 	"github.com/cloudflare/pint/internal/promapi"
 	"github.com/cloudflare/pint/verifharness/hx"
 	"github.com/cloudflare/pint/verifharness/pipe"
@@ -185,9 +186,35 @@ func c15Run(cs c15Case) c15Obs {
 		servers = append(servers, s)
 		proms = append(proms, promapi.NewPrometheus("prom", s.uri, "", nil, 100*time.Millisecond, 2, 1000, nil))
 	}
-	fg := promapi.NewFailoverGroup("prom", servers[0].uri, proms, cs.Strict, "up", nil, nil, nil)
 	reg := prometheus.NewRegistry()
-	fg.StartWorkers(reg)
+	var fg *promapi.FailoverGroup
+	if len(cs.Modes) >= 2 {
+		// through the configuration, the way pint builds its servers: the failover list in the order it is written
+		// (seeded change C15-failover-list-sorted; the ports, and so the lexical order of the URIs, are arbitrary)
+		dir, err := os.MkdirTemp("", "c15cfg-")
+		if err != nil {
+			panic(err)
+		}
+		defer os.RemoveAll(dir)
+		var fo []string
+		for _, sv := range servers[1:] {
+			fo = append(fo, fmt.Sprintf("%q", sv.uri))
+		}
+		text := fmt.Sprintf("prometheus \"prom\" {\n  uri = %q\n  failover = [%s]\n  timeout = \"100ms\"\n  concurrency = 2\n  rateLimit = 1000\n  required = %v\n}\n",
+			servers[0].uri, strings.Join(fo, ", "), cs.Strict)
+		cfg, err := pipe.LoadConfig(dir, text)
+		if err != nil {
+			panic("c15: generated configuration refused: " + err.Error())
+		}
+		gen := config.NewPrometheusGenerator(cfg, reg)
+		if err := gen.GenerateStatic(); err != nil {
+			panic(err)
+		}
+		fg = gen.Servers()[0]
+	} else {
+		fg = promapi.NewFailoverGroup("prom", servers[0].uri, proms, cs.Strict, "up", nil, nil, nil)
+		fg.StartWorkers(reg)
+	}
 	defer func() {
 		fg.Close(reg)
 		for _, s := range servers {
